@@ -142,7 +142,7 @@ func num(n int64, d int64) *Expr {
 	g := gcd(n, d)
 	return &Expr{Op: "num", V: mkJSON(Num{C: "fin", S: s, N: n / g, D: d / g})}
 }
-func lit(cs []string) *Expr         { return &Expr{Op: "lit", V: mkJSON(cs)} }
+func lit(cs []string) *Expr { return &Expr{Op: "lit", S: cs} }
 func call(name string, args ...*Expr) *Expr {
 	e := &Expr{Op: "call", Lo: ch(name)}
 	for _, a := range args {
